@@ -188,6 +188,9 @@ func randWireOp(a *aspec.ASpec, k int, rng *rand.Rand) wireOp {
 	op.Params = params
 	if method != "GET" && method != "DELETE" {
 		op.Body = randSchemaBody(rng)
+		if k%5 == 4 && !a.NoComposite {
+			op.Body = randCompositeBody(a, rand.New(rand.NewSource(int64(k)*7919+rng.Int63n(1000))))
+		}
 		rng.Intn(4)
 		if k%5 == 2 && (k/5)%2 == 0 {
 			// every tenth operation takes a raw body, cycling through the media types (among them JSON-looking ones)
@@ -209,6 +212,9 @@ func randWireOp(a *aspec.ASpec, k int, rng *rand.Rand) wireOp {
 	op.Responses = nil
 	for _, st := range statuses[:1+rng.Intn(4)] {
 		r := aspec.Response{Desc: "r " + st, Headers: randHeaders(rng), Body: randSchemaBody(rng)}
+		if k%7 == 5 && r.Body.K == "json" && !a.NoComposite {
+			r.Body = randCompositeBody(a, rand.New(rand.NewSource(int64(k)*104729+rng.Int63n(1000))))
+		}
 		if r.Body.K == "json" && k%3 == 0 {
 			// a JSON response that is documented in a second media type as well (application/json is what is written)
 			r.Body.Alt = [][]string{{"application/xml"}, {"text/plain"}, {"application/x-yaml", "text/csv"}}[(k/3)%3]
@@ -251,7 +257,32 @@ func randWireOp(a *aspec.ASpec, k int, rng *rand.Rand) wireOp {
 func wireCarrier(id string, base aspec.Base) *aspec.ASpec {
 	a := &aspec.ASpec{Base: base, SpecName: "openapi.yaml", Flags: aspec.Flags{APIHandler: true, Client: true, DoNotEdit: true}, Security: aspec.Sec{K: "none"}, Title: id}
 	wirePool(a)
+	codecPool(a) // the components the random schema compositions refer to (randschema.go)
 	return a
+}
+
+// randCompositeBody: every fifth operation gets a seeded random schema composition as its JSON body (the codec
+// checks take the same generator apart; here it travels through client, wire and server).
+func randCompositeBody(a *aspec.ASpec, rng *rand.Rand) aspec.Body {
+	for tries := 0; tries < 50; tries++ {
+		s := randSchema(rng, 1)
+		// (values of wire operations are filled at random: a discriminated oneOf needs a declared discriminator value,
+		// the codec checks build those from documents)
+		bs, _ := json.Marshal(s)
+		if strings.Contains(string(bs), `"discProp"`) {
+			continue
+		}
+		// (a nil slice inside a nested inline array or as a map value is written as null: the open findings
+		// c07-nested-array-nil-null / c07-addl-array-nil-null, recorded by the codec checks; not repeated per wire property)
+		if strings.Contains(string(bs), `"items":{"k":"array"`) || strings.Contains(string(bs), `"addl":{"k":"array"`) {
+			continue
+		}
+		if s.K == "object" || s.K == "array" || s.K == "allOf" {
+			addNullPools(a, s)
+			return aspec.Body{K: "json", Schema: &s}
+		}
+	}
+	return aspec.Body{K: "json", Schema: &aspec.Schema{K: "ref", To: "Thing"}}
 }
 
 // resolved response description for the judge
